@@ -658,6 +658,16 @@ fn explain(word: u32, pc: u64) {
     }
 }
 
+/// libFuzzer entry: the input bytes are the entropy tape (little-endian u32 words); same
+/// generator, same oracle as the proptest tiers.
+#[allow(dead_code)]
+pub fn fuzz_bytes(data: &[u8]) {
+    let tape = fv::tape::words_from_bytes(data, 320);
+    let case = gen_case(&mut Tape::new(&tape));
+    engine::fuzz_one("C03", &case, &render, &check);
+}
+
+#[allow(dead_code)]
 fn main() -> std::process::ExitCode {
     let argv: Vec<String> = std::env::args().collect();
     if argv.len() >= 3 && argv[1] == "--explain" {
